@@ -485,7 +485,14 @@ Arrive(st, pk) ==
   IF pk = << >> THEN st
   ELSE LET p == Head(pk)
            n == st.narr + 1
-       IN IF p.kind = "chunk" /\ ~p.fin /\ (MinChunk = 0 \/ st.part + p.plen < MinChunk)
+           nr == Len(st.rbuf)
+       IN IF p.kind = "chunk" /\ nr > 0 /\ st.rbuf[nr].kind = "chunk"
+            THEN \* the dispatcher has not read the previous piece yet: the codec will see both as one
+                 Arrive([Emit(st, InEvs(p)) EXCEPT !.owe = @ - p.plen, !.rbuf[nr].plen = @ + p.plen, !.rbuf[nr].fin = p.fin], Tail(pk))
+          ELSE IF p.kind = "chunk" /\ nr > 0 /\ st.rbuf[nr].kind = "pub" /\ st.rbuf[nr].sent < st.rbuf[nr].plen
+            THEN \* ... nor the PUBLISH itself: more (or all) of the payload comes with the header
+                 Arrive([Emit(st, InEvs(p)) EXCEPT !.owe = @ - p.plen, !.rbuf[nr].sent = @ + p.plen], Tail(pk))
+          ELSE IF p.kind = "chunk" /\ ~p.fin /\ (MinChunk = 0 \/ st.part + p.plen < MinChunk)
             THEN \* a piece that is not the last one and leaves less than min_chunk_size bytes buffered stays in the
                  \* codec until more of the payload has arrived: nothing is dispatched for it
                  Arrive([Emit(st, InEvs(p)) EXCEPT !.owe = @ - p.plen, !.part = @ + p.plen], Tail(pk))
